@@ -6,7 +6,9 @@ from xml.sax.saxutils import escape
 
 from bs4 import BeautifulSoup
 
-from .base import DFXPWriter, DFXP_DEFAULT_REGION, _escape_attr
+from .base import (
+    DFXPWriter, DFXP_DEFAULT_REGION, _escape_attr, _styles_in_reference_order,
+)
 from ..base import BaseWriter, CaptionNode, merge_concurrent_captions
 
 LEGACY_DFXP_BASE_MARKUP = '''
@@ -104,9 +106,8 @@ class LegacyDFXPWriter(BaseWriter):
         dfxp = BeautifulSoup(LEGACY_DFXP_BASE_MARKUP, 'lxml-xml')
         dfxp.find('tt')['xml:lang'] = "en"
 
-        for style_id, style in caption_set.get_styles():
-            if style != {}:
-                dfxp = self._recreate_styling_tag(style_id, style, dfxp)
+        for style_id, style in _styles_in_reference_order(caption_set):
+            dfxp = self._recreate_styling_tag(style_id, style, dfxp)
         if not caption_set.get_styles():
             dfxp = self._recreate_styling_tag(
                 LEGACY_DFXP_DEFAULT_STYLE_ID, LEGACY_DFXP_DEFAULT_STYLE, dfxp)
